@@ -204,3 +204,18 @@ package raftlog
 //@ func (*logFile).firstEmptySlot
 //@   call sort.Search
 //@     requires [whole_slot_table_searched] arg0 == maxNumEntries
+
+// Reopening a directory: the prefix deletion that may be pending after an unclean stop is re-applied (up to
+// first-1) on every open, snapshot or not - and because it legitimately fails when the snapshot index is no longer
+// (or not yet) covered by the entry files, its failure is logged and must not refuse the directory: a store that
+// worked until it was closed opens again.
+//@ prop C17
+//@ func Init
+//@   ghost tried bool = false
+//@   call (*entryLog).deleteBefore
+//@     requires [reapplies_up_to_first_minus_one] arg0 == first - 1
+//@     set tried = true
+//@   call Newf
+//@     assume ret0 != nil
+//@   ensures [reopen_reapplies_pending_prefix_deletion] result1 == nil ==> tried
+//@   ensures [reapply_failure_does_not_refuse_the_directory] tried ==> result1 == nil
